@@ -327,7 +327,8 @@ def run(R: vlib.Run):
                 ck = Checker(R, base)
                 coq_ns = f"{ns} {'true' if none else 'false'}"
                 # collapse
-                R.case(("collapse", ci, st, nsel, gulp), nontrivial=st > 0, regime="collapse")
+                R.case(("collapse", ci, st, nsel, gulp), nontrivial=st > 0, regime="collapse",
+                       sample=dict(base, api="collapse") if ci == 2 and rep == 0 else None)
                 kk, t = call(fil.collapse, **kw)
                 if kk != "ok":
                     ck.fail("collapse", "exception", "collapse raised", exc=t)
@@ -533,7 +534,8 @@ def run(R: vlib.Run):
                 delays = fil.header.get_dmdelays(dm).astype(int)
                 md = int(delays.max())
                 if int(delays.min()) >= 0 and md < ns - 1:
-                    R.case(("subband", ci, st, ns, gulp, nsub, md), nontrivial=True, regime="subband")
+                    R.case(("subband", ci, st, ns, gulp, nsub, md), nontrivial=True, regime="subband",
+                           sample=dict(base, api="subband", dm=dm, nsub=nsub, max_delay=md) if ci <= 2 and rep == 0 else None)
                     p = out("sb.fil")
                     kk, r = call(fil.subband, dm, nsub, p, **kw)
                     if kk != "ok":
